@@ -13,6 +13,23 @@ CLAIMED = {
     "C01": ("MIR path-order (must-pass-through dominance), fsync pairing and who-may-call rules",
             "order of log sync / segment fsync / atomic manifest replace / commit marker / publish / truncate on every path; "
             "fsync pairing of written files; who may write the manifest, delete files or touch the log", "5/C01"),
+    "C02": ("sibling-table agreement (record codes, CRC input), loop-exit guard, lock-region and value-flow rules over MIR",
+            "writer/reader agreement on the log record table and CRC input; replay leaves its loop at the first bad record; queue "
+            "restored under the writer lock, cleared on a commit marker, discarded by rollback, synced on Drop; log cut to its "
+            "intact prefix before appends", "5/C02"),
+    "C03": ("MIR reachability from the publish point, outcome-arm dominance, error-disposition enumeration",
+            "no error return after publish; publish only on the success arm of store+marker+sync; error arm never deletes files "
+            "the on-disk manifest may reference; queue extended only after the log append; every fallible storage call in the "
+            "write path propagated or listed", "5/C03"),
+    "C04": ("who-may-call over the call graph and is_deleted guard dominance",
+            "only commit/compact can publish or write segment/manifest files; every document-enumerating routine skips deleted "
+            "documents; rollback discards", "5/C04"),
+    "C05": ("lock-region must-analysis over MIR CFGs",
+            "every shared-state effect of every writer entry point lies inside the writer_lock region on every path; cached live-docs "
+            "reuse is guarded by the generation comparison", "5/C05"),
+    "C06": ("lock-region pairing and call-graph who-may-call",
+            "reader holds the manifest read lock from list copy to last file open while compaction unlinks under the write lock; an "
+            "open reader never returns to path-addressed storage", "5/C06"),
 }
 
 NA = {
